@@ -159,6 +159,12 @@ func runC04(c *eng.Ctx) {
 		c.R.Begin(idx)
 		r := NewRun(s, m, nil, nil)
 		r.Build()
+		if k%3 == 2 {
+			// the collection is emptied and partly refilled after Build: the provider keeps
+			// wiring exactly what was registered when it was built
+			r.EditCollectionAfterBuild()
+			c.R.Count("collection_edited_after_build", 1)
+		}
 		if r.Built {
 			GenScript(rng, r, 1+rng.Intn(3), 5+rng.Intn(10), 0)
 			sc := r.Do(Op{Kind: OpCreate, Scope: 0, CtxKind: 1})
@@ -727,6 +733,12 @@ func runC08(c *eng.Ctx) {
 	exec := func(idx int, s *Spec, m *Model, kind string) {
 		r := NewRun(s, m, nil, nil)
 		r.Build()
+		if idx%2 == 0 {
+			// half of the cases: the collection is emptied (and partly refilled) after Build; what
+			// Build accepted stays resolvable from the provider it returned
+			r.EditCollectionAfterBuild()
+			c.R.Count("collection_edited_after_build", 1)
+		}
 		var fs []Finding
 		if r.Built {
 			a := r.Do(Op{Kind: OpCreate, Scope: 0, CtxKind: 1})
